@@ -43,7 +43,8 @@ def _fd(draw):
                 B=draw(st.lists(st.lists(_fr, min_size=n, max_size=n), min_size=k, max_size=k)),
                 C=draw(st.lists(st.lists(_fr, min_size=n, max_size=n), min_size=m, max_size=m)),
                 phi=draw(st.sampled_from(["sin", "exp", "cubic", "linear"])),
-                x=draw(st.lists(st.sampled_from([0.0, 1e-8, 1.0, -1.0, 3.0, 1e3, -0.5]), min_size=n, max_size=n)),
+                # (large components: positions in metres of a solar-system problem are 1e11)
+                x=draw(st.lists(st.sampled_from([0.0, 1e-8, 1.0, -1.0, 3.0, 1e3, -0.5, 1e5, -3e7, 1e9, 1.5e11]), min_size=n, max_size=n)),
                 base_order=draw(st.integers(2, 8)),
                 tol=draw(st.sampled_from([None, 1e-6, 1e-10])), flat=draw(st.booleans()),
                 adaptive=draw(st.sampled_from([True, True, True, False])),
@@ -185,8 +186,14 @@ def _check_fd(case):
         if not err <= allowed:
             # distinguish a transposed layout from an inaccurate one
             transposed = (not case["flat"]) and J.size and np.allclose(J.reshape(m, n) if J.size == m * n else 0, Jtrue, atol=1e-6) is False and m == n and np.allclose(J.reshape(m, n).T, Jtrue, atol=1e-6)
+            # open finding D65: the adaptive mode perturbs every component by ABSOLUTE steps 0.5 * 4**-m, so rounding noise
+            # eps * max|x| / h enters every column once some component is large. Matched only for points with a component
+            # >= 1e4 and only while the error stays below a bound that grows with that component (gross errors stay violations).
+            xmax = float(np.max(np.abs(np.asarray(x, dtype=np.float64)))) if np.size(x) else 0.0
+            scaled = allowed + 3e-12 * xmax * (Jmax + fmag / (1 + xmax) + 1e-3)
             viols.append(V("fd_accuracy" if not transposed else "fd_layout", "JacobianWrapper(base_order={}, tol={}, flat={}) differs from the analytic Jacobian by {:.3e} (allowed {:.3e}) for f: {} -> {} ({}) at x = {}".format(
-                case["base_order"], tol, case["flat"], err, allowed, ins, outs, phi, case["x"]), sig, **attrs))
+                case["base_order"], tol, case["flat"], err, allowed, ins, outs, phi, case["x"]), sig + (":large_point" if xmax >= 1e4 else ""),
+                xmax=xmax, excess_over_magnitude_scaled_bound=err / scaled, mode="adaptive" if case.get("adaptive", True) else "fixed", **attrs))
         metrics = {"fd_err/allowed": err / allowed}
         return viols, dict(nontrivial=bool(m != n or len(ins) > 1 or len(outs) > 1), labels=["fd:" + phi, "fd:flat" if case["flat"] else "fd:tensor", "fd:order{}".format(case["base_order"]), "fd:adaptive" if case.get("adaptive", True) else "fd:fixed_depth"] + (["fd:returns_view_of_argument:" + case["view"]] if case.get("view") and not case.get("int_point") else []), metrics=metrics)
     return viols, dict(nontrivial=bool(m != n or len(ins) > 1 or len(outs) > 1), labels=["fd:" + phi])
